@@ -7,6 +7,7 @@ use geodesy::authoring::*;
 pub fn exec_oracle(kind: &str, fields: &[&str]) -> String {
     match kind {
         "S_C12" => oracle_c12(fields),
+        "S_C03" => oracle_c03(fields),
         _ => "bad-case".to_string(),
     }
 }
@@ -207,4 +208,77 @@ fn oracle_c12(fields: &[&str]) -> String {
         return format!("oracle FAIL abstract-machine expected n={count} data={want} got n={n} data={got}");
     }
     "oracle pass".to_string()
+}
+
+// ----- C03: a pipeline is the sequential application of its steps as stand-alone operators ---
+
+fn oracle_c03(fields: &[&str]) -> String {
+    let Some((spec, rest)) = crate::exec::parse_ctx(fields) else {
+        return "bad-case".to_string();
+    };
+    if rest.len() < 4 {
+        return "bad-case".to_string();
+    }
+    let def = unescape(rest[0]);
+    let nsteps: usize = rest[1].parse().unwrap_or(0);
+    let mut steps = vec![];
+    for k in 0..nsteps {
+        steps.push((rest[2 + 2 * k].to_string(), unescape(rest[3 + 2 * k])));
+    }
+    let inverse = rest[2 + 2 * nsteps] == "I";
+    let data = parse_data(rest[3 + 2 * nsteps]);
+    crate::exec::with_ctx(&spec, |ctx| {
+        // reference: the steps one after another, each instantiated on its own
+        let mut refdata = data.clone();
+        let mut count = usize::MAX;
+        let order: Vec<usize> = if inverse { (0..nsteps).rev().collect() } else { (0..nsteps).collect() };
+        let mut expect_err = false;
+        for k in order {
+            let (flags, core) = &steps[k];
+            let omit = if inverse { flags.contains('V') } else { flags.contains('F') };
+            let text = if flags.contains('I') { format!("{core} inv") } else { core.clone() };
+            // every step must be instantiable, executed or not
+            let op = match ctx.op(&text) {
+                Ok(op) => op,
+                Err(_) => {
+                    expect_err = true;
+                    break;
+                }
+            };
+            if omit {
+                continue;
+            }
+            match ctx.apply(op, if inverse { Inv } else { Fwd }, &mut refdata) {
+                Ok(n) => count = count.min(n),
+                Err(e) => return format!("oracle FAIL reference apply err {}", err_class(&e)),
+            }
+        }
+        if count == usize::MAX {
+            count = data.len();
+        }
+        let pipeline = ctx.op(&def);
+        if expect_err {
+            // some step cannot be instantiated on its own (e.g. inv of a one-way operator):
+            // then the pipeline must be refused as well
+            return match pipeline {
+                Err(_) => "oracle pass".to_string(),
+                Ok(_) => "oracle FAIL pipeline accepted although a step is not instantiable".to_string(),
+            };
+        }
+        let op = match pipeline {
+            Ok(op) => op,
+            Err(e) => return format!("oracle FAIL instantiation err {}", err_class(&e)),
+        };
+        let mut d = data.clone();
+        let n = match ctx.apply(op, if inverse { Inv } else { Fwd }, &mut d) {
+            Ok(n) => n,
+            Err(e) => return format!("oracle FAIL apply err {}", err_class(&e)),
+        };
+        let got = dump_data(&d);
+        let want = dump_data(&refdata);
+        if n != count || got != want {
+            return format!("oracle FAIL sequential expected n={count} data={want} got n={n} data={got}");
+        }
+        "oracle pass".to_string()
+    })
 }
